@@ -30,6 +30,8 @@ structure MethodDesc where
   full : String             -- "/gripql.Query/GetVertex" (how grpc names it in *ServerInfo.FullMethod)
   kind : Kind
   reqType : String          -- message type the generated handler decodes ("ElementID"); element type for client streams
+  client : String           -- the service's direct client type ("QueryDirectClient": `Query` of Query_ServiceDesc)
+  handler : String          -- the descriptor's Handler ("_Query_GetVertex_Handler")
   deriving DecidableEq, Repr, Inhabited
 
 /-- Where an interceptor takes the graph name from. -/
@@ -98,6 +100,7 @@ structure GwMethod where
   isServerStream : Bool
   isClientStream : Bool
   handler : String             -- 4th argument of the stream interceptor call ("_Query_Traversal_Handler"), "" for unary
+  dropsError : Bool            -- `go shim.streamServerInt(…)`: the interceptor's error return is discarded
   deriving DecidableEq, Repr, Inhabited
 
 /-- One `gripql.New<Svc>DirectClient(impl, opts…)` call in server.Serve. -/
